@@ -14,6 +14,7 @@ TARGETS = [
     dict(cpu="68000", hdr=0x01, segs={"code": (1, 1)}, max_addr={"code": 0xffffff}, style="moto68k"),
     dict(cpu="16c84", hdr=0x70, segs={"code": (1, 2)}, max_addr={"code": 0x3ff}, style="pic"),
     dict(cpu="320c30", hdr=0x76, segs={"code": (1, 4)}, max_addr={"code": 0xffffff}, style="c30"),
+    dict(cpu="320c25", hdr=0x75, segs={"code": (1, 2)}, max_addr={"code": 0xffff}, style="c25"),
     dict(cpu="8086", hdr=0x42, segs={"code": (1, 1)}, max_addr={"code": 0xffff}, style="intel"),
 ]
 
@@ -51,6 +52,11 @@ def data_stmt(rng, tgt, gran, nbytes_hint, budget):
         vals = [rng.randrange(0x4000) for _ in range(n)]
         bs = b"".join(v.to_bytes(2, "little") for v in vals)
         return "\tdata %s" % ",".join(map(str, vals)), bs
+    if style == "c25":
+        n = max(1, min(max(1, nbytes_hint // 2), 30, budget // 2))
+        vals = [rng.randrange(0x10000) for _ in range(n)]
+        bs = b"".join(v.to_bytes(2, "little") for v in vals)
+        return "\tword %s" % ",".join(map(str, vals)), bs
     if style == "c30":
         n = max(1, min(max(1, nbytes_hint // 4), 20, budget // 4))
         vals = [rng.randrange(1 << 32) for _ in range(n)]
@@ -60,7 +66,7 @@ def data_stmt(rng, tgt, gran, nbytes_hint, budget):
 
 
 def reserve_stmt(tgt, k):
-    return {"intel": "\tds %d", "moto8": "\tdfs %d", "moto68k": "\tds.b %d", "pic": "\tres %d", "c30": "\tbss %d"}[tgt["style"]] % k
+    return {"intel": "\tds %d", "moto8": "\tdfs %d", "moto68k": "\tds.b %d", "pic": "\tres %d", "c30": "\tbss %d", "c25": "\tbss %d"}[tgt["style"]] % k
 
 
 def gen_program(rng, size_class):
@@ -162,6 +168,53 @@ def gen_program(rng, size_class):
     return "\n".join(lines) + "\n", tail, stats
 
 
+def gen_long_run(rng, which):
+    """one contiguous run of more than 64 KiB on a word- or dword-granular target (record split
+    must happen by *byte* count), optionally under an active PHASE (the split must use the load address)"""
+    tgt = [x for x in TARGETS if x["cpu"] == which][0]
+    hdr = tgt["hdr"]
+    sid, gran = tgt["segs"]["code"]
+    lines = ["\tcpu %s" % tgt["cpu"]]
+    if tgt["style"] == "moto68k":
+        lines.append("\tpadding off")
+    start = rng.choice([0, 16, 0x100])
+    lines.append("\torg %d" % start)
+    evs = []
+    phase = rng.random() < 0.5
+    phase_val = rng.choice([0x2000, 0x4000]) if phase else 0
+    if phase:
+        lines.append("\tphase %d" % phase_val)
+    total = 0
+    target_bytes = rng.choice([65536 + 2 * gran, 66000, 70000, 131072 + 4 * gran])
+    if tgt["style"] == "c25":
+        target_bytes = min(target_bytes, 2 * (0xffff - start - phase_val - 64))
+    while total < target_bytes:
+        if gran == 1:
+            n = rng.choice([255, 256, 509, 513, 1024, 4096, 30000])
+            v = rng.randrange(256)
+            if tgt["style"] == "moto68k":
+                lines.append("\tdc.b [%d]%d" % (n, v))
+            else:
+                lines.append("\tdb %d dup (%d)" % (n, v))
+            bs = bytes([v]) * n
+        else:
+            h = rng.choice([gran, 2 * gran, 3 * gran, 20, 60, 120, 120])
+            src, bs = data_stmt(rng, tgt, gran, h, h)
+            lines.append(src)
+        evs.append("e:" + bs.hex())
+        total += len(bs)
+    if phase:
+        lines.append("\tdephase")
+    lines.append("\tds.b 2" if tgt["style"] == "moto68k" else reserve_stmt(tgt, 2))
+    src, bs = data_stmt(rng, tgt, gran, 8, 8)
+    lines.append(src)
+    pc = start + total // gran + 2
+    evs.append("j:%d,%d,%d,%d" % (hdr, sid, gran, pc))
+    evs.append("e:" + bs.hex())
+    tail = "%d %d %d %d - %s" % (hdr, sid, gran, start, " ".join(evs))
+    return "\n".join(lines) + "\n", tail, dict(emits=len(evs) - 1, reserves=1, orgs=0, segsw=0, cpusw=0, bigstmt=0, bytes=total, longruns=1, phased=int(phase))
+
+
 def run(args):
     res = common.Result("C04", args.tier, args.seed, "proof")
     bdir, audit, proof_problems = common.standard_setup(res, "C04", ["FileFormat"])
@@ -175,7 +228,7 @@ def run(args):
     spec_fail = []
     corr_fail = []
     samples = []
-    agg = dict(emits=0, reserves=0, orgs=0, segsw=0, cpusw=0, bigstmt=0, bytes=0, records=0, asl_rejected=0)
+    agg = dict(emits=0, reserves=0, orgs=0, segsw=0, cpusw=0, bigstmt=0, bytes=0, records=0, asl_rejected=0, longruns=0, phased=0)
     distinct = set()
     reqs = []
     metas = []
@@ -189,6 +242,10 @@ def run(args):
                     src = open(os.path.join(cdir, f)).read()
                     tail = open(os.path.join(cdir, f[:-4] + ".req")).read().strip()
                     progs.append((src, tail, dict(emits=0, reserves=0, orgs=0, segsw=0, cpusw=0, bigstmt=0, bytes=0), "corpus:" + f))
+        lr = ["320c25", "320c30", "68000", "68000"] if args.tier == "quick" else ["320c25", "320c30", "68000", "320c30"] * 8
+        for i, which in enumerate(lr):
+            src, tail, st = gen_long_run(rng, which)
+            progs.append((src, tail, st, "longrun:%d:%s" % (i, which)))
         for i in range(n_prog):
             sc = "small" if i % 10 < 6 else ("medium" if i % 10 < 9 else "large")
             if args.tier == "quick" and sc == "large" and i % 30 != 9:
